@@ -126,7 +126,7 @@ Inductive ev :=
 | ELinkLd (u : nat) (l : option nat)
 | ECb (u : nat) (k : cbk) (other : option nat)   (* other: the unit resumed by a resume_*_to primitive *)
 | EFutexRes (u j : nat)                    (* terminating unit u wakes its external joiner j *)
-| ENb (p : nat) (inc : bool) (old : Z) (u : nat)
+| ENb (p : nat) (inc : bool) (old : Z) (u : nat) (handoff : bool)  (* handoff: decrement made by a terminating unit that jumps to its joiner *)
 | EStart (u : nat) | EFinish (u : nat)
 | EFree (u : nat)
 | EMigSt (u p : nat) | EMigLd (u p : nat) | EMigCb (u : nat)
@@ -142,6 +142,16 @@ Definition beq3 (a b c a' b' c' : bool) : bool := Bool.eqb a a' && Bool.eqb b b'
 Fixpoint remove1 (x : nat) (l : list nat) : list nat :=
   match l with [] => [] | y :: r => if Nat.eqb x y then r else y :: remove1 x r end.
 Definition inb (x : nat) (l : list nat) : bool := existsb (Nat.eqb x) l.
+
+(* states in which the unit is blocked (or about to be published as blocked / on its way back to its
+   pool) and must therefore still be counted in num_blocked: a late decrement made for an earlier
+   resume may only remove a surplus entry *)
+Definition must_count (x : ustate) : bool :=
+  match x with
+  | UBlocked | UResuming => true
+  | UCbS k (S _) => suspend_kind k
+  | _ => false
+  end.
 
 (* the joiner has been dealt with (or there is none): a ULT joiner has been made
    runnable (it is no longer BLOCKED); an external joiner's futex has been signalled *)
@@ -341,7 +351,7 @@ Definition step (s : st) (e : ev) : option st :=
       | JWHave j' => if Nat.eqb j j' then Some (set_u s u (with_jw r JWDone)) else None
       | _ => None
       end
-  | ENb p inc old u =>
+  | ENb p inc old u handoff =>
       let pr := po s p in
       let r := un s u in
       if Z.eqb old (nb pr) then
@@ -359,7 +369,13 @@ Definition step (s : st) (e : ev) : option st :=
           | _ => None
           end
         else
-          if inb p (cnt r) then
+          (* a resumer decrements only after it has pushed the unit (ABTI_ythread_resume_and_push: the
+             pool must never look empty and uncounted while the unit is on its way back); the join
+             hand-off decrements for a joiner that is still BLOCKED and is then run directly *)
+          let n := count_occ Nat.eq_dec (cnt r) p in
+          let ok := if handoff then (match ust r with UBlocked => Nat.leb 1 n | _ => false end)
+                    else if must_count (ust r) then Nat.leb 2 n else Nat.leb 1 n in
+          if ok then
             Some (mkS (upd (un s) u (with_cnt r (remove1 p (cnt r)))) (upd (po s) p (mkP (q pr) (old - 1))) (seen s))
           else None
       else None
